@@ -151,6 +151,9 @@ func Load(dir string, goarch string, tests bool) *Prog {
 	if p.Root == nil {
 		fatalf("load: root package %s not found among %d packages", RootPath, len(pkgs))
 	}
+	if p.Root.Pkg.Path() == RootPath {
+		ResolveRenames(p, DeclsPath)
+	}
 	p.indexFuncs()
 	return p
 }
@@ -229,10 +232,10 @@ func FuncName(fn *ssa.Function) string {
 			t = pt.Elem()
 		}
 		if n, ok := t.(*types.Named); ok {
-			return "(" + ptr + n.Obj().Name() + ")." + fn.Name()
+			return "(" + ptr + N(n.Obj()) + ")." + N(fn)
 		}
 	}
-	return fn.Name()
+	return N(fn)
 }
 
 // inScope reports whether fn belongs to the shipped library packages (root and
@@ -255,8 +258,25 @@ func (p *Prog) MustFunc(name string) *ssa.Function {
 }
 
 // Named returns the named type of the root package.
+// Lookup finds a package-level object of the root package by the name the rules know it by.
+func (p *Prog) Lookup(name string) types.Object {
+	scope := p.Root.Pkg.Scope()
+	for obj, old := range nameBack {
+		if old == name && obj.Parent() == scope {
+			return obj
+		}
+	}
+	obj := scope.Lookup(name)
+	if obj != nil {
+		if _, renamedAway := nameBack[obj]; renamedAway {
+			return nil // this declaration is known to the rules under another name
+		}
+	}
+	return obj
+}
+
 func (p *Prog) Named(name string) *types.Named {
-	obj := p.Root.Pkg.Scope().Lookup(name)
+	obj := p.Lookup(name)
 	if obj == nil {
 		return nil
 	}
@@ -287,7 +307,7 @@ func (p *Prog) Field(typ, field string) *types.Var {
 		return nil
 	}
 	for i := 0; i < st.NumFields(); i++ {
-		if st.Field(i).Name() == field {
+		if N(st.Field(i)) == field {
 			return st.Field(i)
 		}
 	}
@@ -304,6 +324,9 @@ func (p *Prog) MustField(typ, field string) *types.Var {
 
 // Global returns the package-level variable of the root package.
 func (p *Prog) Global(name string) *ssa.Global {
+	if obj := p.Lookup(name); obj != nil {
+		name = obj.Name()
+	}
 	m := p.Root.Members[name]
 	g, _ := m.(*ssa.Global)
 	return g
@@ -353,7 +376,7 @@ func (p *Prog) MethodOf(t types.Type, name string) *ssa.Function {
 	ms := p.SSA.MethodSets.MethodSet(t)
 	for i := 0; i < ms.Len(); i++ {
 		sel := ms.At(i)
-		if sel.Obj().Name() != name {
+		if N(sel.Obj()) != name {
 			continue
 		}
 		fn := p.SSA.MethodValue(sel)
@@ -399,7 +422,7 @@ func typeName(t types.Type) string {
 		return "*" + typeName(pt.Elem())
 	}
 	if n, ok := t.(*types.Named); ok {
-		return n.Obj().Name()
+		return N(n.Obj())
 	}
 	return t.String()
 }
@@ -506,7 +529,7 @@ func (p *Prog) BuildCallGraph() {
 						if _, isPtr := t.(*types.Pointer); !isPtr {
 							// value type: covered; pointer type duplicates resolve to same decl
 						}
-						if m := p.MethodOf(t, cc.Method.Name()); m != nil && p.inModule(m) {
+						if m := p.MethodOf(t, N(cc.Method)); m != nil && p.inModule(m) {
 							dup := false
 							for _, e := range p.callees[fn] {
 								if e.Site == c && e.Callee == m {
